@@ -93,6 +93,13 @@ getStartIndex(
                     1),
                 theResult));
 
+        // An index beyond the end of the string results in
+        // an empty string, just like the special values above.
+        if (theResult >= theStringLength)
+        {
+            return theStringLength;
+        }
+
         return XalanDOMString::size_type(theResult);
     }
 }
@@ -171,9 +178,14 @@ getSubstringLength(
             // the starting index, or greater
             // than or equal to the starting index, the
             // substring is empty.
-            if (theTotal <= theXPathStartIndex)
+            if (!(theTotal > theXPathStartIndex))
             {
                 return 0;
+            }
+            else if (theTotal > theSourceStringLength)
+            {
+                // The substring extends to the end of the string.
+                return theMaxLength;
             }
             else
             {
